@@ -59,6 +59,18 @@ pub struct Sim {
     pub instantiated: bool,
     pub legacy_ids: BTreeSet<String>,
     pub event_log: Vec<(Vec<(String, String)>, String, u64)>,
+    /// C11 reordering oracle: the chain as it was before the previous accepted order operation,
+    /// that operation, and the orders it named
+    pub prev_op: Option<PrevOp>,
+}
+
+pub struct PrevOp {
+    pub chain_before: Chain,
+    pub sender: String,
+    pub funds: Vec<CoinS>,
+    pub msg: Value,
+    pub asks: Vec<String>,
+    pub bids: Vec<String>,
 }
 
 fn ledger_hash(c: &Chain) -> u64 {
@@ -119,6 +131,7 @@ impl Sim {
             instantiated: false,
             legacy_ids: BTreeSet::new(),
             event_log: vec![],
+            prev_op: None,
         };
         sim.cov.runs = 1;
         if enabled.iter().filter(|b| **b).count() == 1 {
@@ -352,6 +365,7 @@ impl Sim {
                 faults,
             } => self.exec(sender, funds, msg, faults),
             Step::SetMarker { denom, kind } => {
+                self.prev_op = None;
                 self.chain.querier.markers.insert(denom.clone(), *kind);
                 if let Some(t) = self.twin.as_mut() {
                     t.querier.markers.insert(denom.clone(), *kind);
@@ -360,6 +374,7 @@ impl Sim {
                 self.simple_report("set_marker")
             }
             Step::SetAttrs { account, names } => {
+                self.prev_op = None;
                 self.chain.querier.attrs.insert(account.clone(), names.clone());
                 if let Some(t) = self.twin.as_mut() {
                     t.querier.attrs.insert(account.clone(), names.clone());
@@ -455,6 +470,8 @@ impl Sim {
         let ledger_pre = self.chain.ledger.clone();
         let version_pre = storage_pre.get(b"version_info".as_slice()).cloned();
 
+        let c11 = self.enabled[prop_index("C11").unwrap()];
+        let chain_before = if c11 && kind != "modify_contract" { Some(self.chain.clone()) } else { None };
         let res = self.chain.deliver(sender, funds, msg, faults);
         if res.faults_fired.gas_abort {
             self.cov.fault("F2_gas_abort");
@@ -546,6 +563,63 @@ impl Sim {
             let mut th = Fnv::new();
             th.str(&kind).u64(book_shape_hash(&book_pre, &cfg_pre)).u64(sh);
             self.cov.transitions.insert(th.finish());
+        }
+
+        // ---- C11 reordering oracle: two consecutive accepted operations on disjoint orders commute
+        if c11 {
+            let (an, bn) = req.named();
+            if faults.any() {
+                // a faulted delivery is not reproducible on the fork without its fault
+                self.prev_op = None;
+            } else if accepted && kind != "modify_contract" {
+                if let Some(p) = self.prev_op.take() {
+                    let disjoint = !an.iter().any(|x| p.asks.contains(x)) && !bn.iter().any(|x| p.bids.contains(x));
+                    if disjoint {
+                        let mut fork = p.chain_before.clone();
+                        fork.height = self.chain.height;
+                        fork.time_ns = self.chain.time_ns;
+                        fork.querier.markers = self.chain.querier.markers.clone();
+                        fork.querier.attrs = self.chain.querier.attrs.clone();
+                        let r1 = fork.deliver(sender, funds, msg, &TxFaults::default());
+                        let r2 = fork.deliver(&p.sender, &p.funds, &p.msg, &TxFaults::default());
+                        let mut h = Fnv::new();
+                        h.str("reorder").str(&kind).str(model::parse_req(&p.msg).kind());
+                        self.cov.hit("C11", h.finish(), true);
+                        self.cov.probe("reordered_pair_of_independent_operations");
+                        let mut l1 = fork.ledger.clone();
+                        l1.retain(|_, v| *v != 0);
+                        let mut l2 = self.chain.ledger.clone();
+                        l2.retain(|_, v| *v != 0);
+                        if !r1.outcome.is_accepted() || !r2.outcome.is_accepted() || fork.storage.data != self.chain.storage.data || l1 != l2 {
+                            self.flag(
+                                &["C11"],
+                                "C11.independent_operations_do_not_commute",
+                                &kind,
+                                "",
+                                format!(
+                                    "two consecutive accepted operations on different orders ({} then {}) give a different result when delivered in the other order (accepted: {} / {})",
+                                    model::parse_req(&p.msg).kind(),
+                                    kind,
+                                    r1.outcome.is_accepted(),
+                                    r2.outcome.is_accepted()
+                                ),
+                            );
+                        }
+                    }
+                }
+                if let Some(cb) = chain_before {
+                    self.prev_op = Some(PrevOp {
+                        chain_before: cb,
+                        sender: sender.to_string(),
+                        funds: funds.to_vec(),
+                        msg: msg.clone(),
+                        asks: an,
+                        bids: bn,
+                    });
+                }
+            } else if accepted {
+                self.prev_op = None;
+            }
         }
 
         // ---- twin continuation (C15)
